@@ -71,7 +71,7 @@ def load_known():
 # ----------------------------------------------------------------------------------------------
 # reflective-checker properties (C08, C07, C05): shared flow
 # ----------------------------------------------------------------------------------------------
-def reflective(prop, tier, seed, oracle_module, level_note, extra_obligations=None, ncorr=None):
+def reflective(prop, tier, seed, oracle_module, level_note, extra_obligations=None, ncorr=None, oracle_args=None):
     t0 = time.time()
     problems = []       # broken obligations / correspondences (strings)
     with coqbuild.Lock():
@@ -115,7 +115,8 @@ def reflective(prop, tier, seed, oracle_module, level_note, extra_obligations=No
         report = json.load(open(rp))
     # translator validation + prediction correspondence
     n = ncorr or (6 if tier == 'quick' else 40)
-    corr = harness(oracle_module, ['--mode', 'check', '--seed', str(seed), '--n', str(n), '--tier', tier])
+    oargs = oracle_args or []
+    corr = harness(oracle_module, oargs + ['--mode', 'check', '--seed', str(seed), '--n', str(n), '--tier', tier])
     if 'error' in corr:
         problems.append('correspondence harness: ' + corr['error'])
     else:
@@ -156,7 +157,7 @@ def reflective(prop, tier, seed, oracle_module, level_note, extra_obligations=No
         rc = 1
     elif problems:
         # search for a concrete failing input
-        s = harness(oracle_module, ['--mode', 'search', '--seed', str(seed), '--budget', '60' if tier == 'quick' else '600',
+        s = harness(oracle_module, oargs + ['--mode', 'search', '--seed', str(seed), '--budget', '60' if tier == 'quick' else '600',
                                     '--hint', json.dumps(failed)])
         found = [v for v in s.get('violations', []) if not any(k['key'] == v.get('key') for k in known)]
         nviol = max(1, len(found))
@@ -189,7 +190,27 @@ def check_C08(tier, seed):
                       'positively homogeneous (validated against scipy each run)')
 
 
-CHECKS = {'C08': check_C08}
+def check_C07(tier, seed):
+    return reflective('C07', tier, seed, 'oracle_sym',
+                      'Each generator is proved to map every typed output of every translated stage by the fixed sign of tables/signs.json, '
+                      'for every grid size and every differentiation matrix that commutes (F, M) or anticommutes (T) with the grid action '
+                      '(proved of the spectral_diff_matrix model in DiffMat.v). Not derivable syntactically and therefore not covered: '
+                      'second row of the O(r^2) system under M (needs a cancellation between fX0 and fXc), *_untwisted under T, '
+                      'Cartesian converters; thresholded root selection in r_singularity and iota2 under F are outside the theorem. '
+                      'Newton/linear solves enter through their residual equations.',
+                      oracle_args=['--prop', 'C07'])
+
+
+def check_C05(tier, seed):
+    return reflective('C05', tier, seed, 'oracle_sym',
+                      'Every covered output (tables/shift_cover.json) of every translated stage is proved cyclic-shift equivariant for every '
+                      'grid size and every circulant differentiation matrix; the sigma pin is handled by stating the law for the unpinned '
+                      'residual. Origin-dependent by definition (excluded): *_untwisted on helical axes, varphi (induced law checked by the '
+                      'harness), Cartesian components. Not proved: that Newton reaches the shifted solution (uniqueness).',
+                      oracle_args=['--prop', 'C05'])
+
+
+CHECKS = {'C08': check_C08, 'C07': check_C07, 'C05': check_C05}
 
 
 def main():
@@ -201,8 +222,8 @@ def main():
     seed = int(os.environ.get('VERIF_SEED', '20240930'))
     if a.replay:
         rep = json.load(open(a.replay))
-        mod = {'C08': 'oracle_C08'}.get(a.prop)
-        res = harness(mod, ['--mode', 'replay', '--file', a.replay])
+        mod = {'C08': 'oracle_C08', 'C07': 'oracle_sym', 'C05': 'oracle_sym'}.get(a.prop)
+        res = harness(mod, (['--prop', a.prop] if mod == 'oracle_sym' else []) + ['--mode', 'replay', '--file', a.replay])
         print(json.dumps(res, indent=1))
         return 1 if res.get('violations') else 0
     if a.prop not in CHECKS:
